@@ -882,8 +882,19 @@ where
                 // unchanged and no bytes are consumed from the bit reader.
                 if min_delta != 0 {
                     let total = min_delta.wrapping_mul(mini_block_to_skip as i64);
-                    let step = T::T::from_i64(total)
-                        .ok_or_else(|| general_err!("delta*n overflow in skip"))?;
+                    let step = match T::T::from_i64(total) {
+                        Some(step) => step,
+                        None => {
+                            // n * min_delta leaves the range of T::T (e.g. large INT32 deltas).
+                            // Deltas are defined modulo 2^width, and `get` restores the values
+                            // with `wrapping_add`, so accumulate the step the same way.
+                            let mut step = T::T::default();
+                            for _ in 0..mini_block_to_skip {
+                                step = step.wrapping_add(&self.min_delta);
+                            }
+                            step
+                        }
+                    };
                     self.last_value = self.last_value.wrapping_add(&step);
                 }
                 // bit_width=0 payloads occupy zero bytes; no bit_reader advancement needed.
@@ -1811,6 +1822,16 @@ mod tests {
         let data: Vec<i64> = (0..128).map(|i| i * 100).collect();
         test_skip::<Int64Type>(data.clone(), Encoding::DELTA_BINARY_PACKED, 50);
         test_skip::<Int64Type>(data, Encoding::DELTA_BINARY_PACKED, 200);
+    }
+
+    #[test]
+    fn test_skip_delta_bit_packed_bw0_wrapping_step_i32() {
+        // Uniform step of i32::MAX modulo 2^32: bw=0 miniblocks whose n * min_delta
+        // does not fit in an i32. Skip must wrap exactly like get does.
+        let data: Vec<i32> = (0..128i32).map(|i| i32::MIN.wrapping_add(i.wrapping_mul(i32::MAX))).collect();
+        test_skip::<Int32Type>(data.clone(), Encoding::DELTA_BINARY_PACKED, 3);
+        test_skip::<Int32Type>(data.clone(), Encoding::DELTA_BINARY_PACKED, 50);
+        test_skip::<Int32Type>(data, Encoding::DELTA_BINARY_PACKED, 200);
     }
 
     #[test]
